@@ -11,6 +11,18 @@ CLAIMED = {
    text="Deterministic three-party simulation of the compiled graph with fault injection: each party has its own value store and random tape, junk (zeros/ones/random/poison) for inputs and share slots it does not hold, values cross only at Send NOPs over a simulated transport (delay/reorder/duplicate), seeded schedules (random topological, skewed, PCT), evaluator restarts and migration. Oracle: every output party holds the reference result; shared outputs are consistent between holders and reconstruct.",
    note="Trusts: the stub party runtime written from reference/runtime.md (tied to the implementation by the control-run self-validation); reference = plaintext evaluation of the source graph.",
    technique="deterministic simulation with fault injection (three simulated parties, seeded scheduler, junk/tape/order/restart/network faults)"),
+ "C12": dict(engine="storesim", category="fault_enumeration", design_ref="§4 C12",
+   text="Writer -> simulated byte store with fault injector -> reader under catch_unwind. Fault-free: serialise twice (same text), round trip deep-equal, well-formed, evaluates identically under one seed, for contexts at every pipeline stage. Faults: every truncation offset and every single-bit flip of texts up to the enumeration limit, plus seeded multi-bit flips, zeroed/duplicated/dropped blocks and structured corruption of the inner payload (version, id tables, dangling dependencies, tree mutation). Oracle: Err, or an Ok context that is well-formed, re-serialisable and evaluable without panic; never a panic.",
+   note="Trusts: the well-formedness checker (public getters + serialised finalization flags). Non-UTF-8 bytes are decoded lossily before from_str.",
+   technique="deterministic simulation of storage faults (fault enumeration over truncations and bit flips + seeded structured corruption) between serialise and deserialise"),
+ "C18": dict(engine="trisim", category="exploration", design_ref="§4 C18",
+   text="Seeded tables (1..12 rows, bit keys of width 1..10 incl. odd widths, integer keys of all integer types, heavy key duplication, payload columns of any scalar type/rank) and permutations: plaintext Sort / SortByIntegerKey / ApplyPermutation(+-inverse) against a reference stable sort and permutation model; the compiled forms in the repository's local run and in three-party simulated runs under junk/tape/schedule/restart/network faults.",
+   note="Trusts: the 60-line reference stable sort / permutation model written from the Graph::sort documentation; the stub party runtime (see C02).",
+   technique="deterministic three-party simulation with fault injection + reference-model oracle (1-party configuration for the plaintext part)"),
+ "C19": dict(engine="trisim", category="exploration", design_ref="§4 C19",
+   text="Seeded pairs of tables (null rows anywhere, 1..3 key columns of differing scalar types and row shapes, masked key entries, disjoint/partial/heavy overlap, payload columns, null column at any position) x 4 join types x masked/unmasked x owners x outputs: plaintext join against a reference relational join written from the documentation; compiled join in the repository's local run and in three-party simulated runs under junk/tape/schedule/restart/network faults; protocol aborts (cuckoo hashing) are counted, never a wrong table.",
+   note="Trusts: the reference join model (written from the documentation of Graph::join / join_with_column_masks); the stub party runtime (see C02).",
+   technique="deterministic three-party simulation with fault injection + reference-model oracle"),
 }
 
 NOT_YET = {
